@@ -37,7 +37,28 @@ def deterministic(cfg: Dict[str, Any]) -> Dict[str, Any]:
             ag["reward_function"]["reward_components"] = [r for r in rc if r.get("type") != "shared-reward"] or [{"type": "dummy"}]
             keep.append(ag)
     c["agents"] = keep
+    # the attacker's tool stays, driven by the learning agent itself and always successful: malicious traffic (what NMNE
+    # capture, a process-relevant option, counts) then depends on the declared actions only
+    bots = []
+    for n in c["simulation"]["network"].get("nodes", []):
+        for app in n.get("applications") or []:
+            if app.get("type") == "data-manipulation-bot":
+                app.setdefault("options", {}).update({"port_scan_p_of_success": 1.0, "data_manipulation_p_of_success": 1.0})
+                bots.append(n["hostname"])
+    if keep and bots:
+        am = keep[0]["action_space"]["action_map"]
+        for h in bots:
+            am[max(int(k) for k in am) + 1] = {"action": "node-application-execute", "options": {"node_name": h, "application_name": "data-manipulation-bot"}}
     return c
+
+
+def attack_entries(cfg) -> List[int]:
+    """Indices of the action-map entries that run a data-manipulation-bot (added by deterministic())."""
+    for ag in cfg.get("agents", []):
+        if ag.get("type") == "proxy-agent":
+            return [int(k) for k, v in ag["action_space"]["action_map"].items()
+                    if v.get("action") == "node-application-execute" and v.get("options", {}).get("application_name") == "data-manipulation-bot"]
+    return []
 
 
 def variant_y(cfg: Dict[str, Any]) -> Dict[str, Any]:
@@ -117,6 +138,8 @@ def scheduled_folders(work, rng) -> Dict[str, Any]:
 
 
 def sig_fn(tr, event, stuck):
+    if tr["meta"].get("part") == "instances":
+        return {"part": "instances", "scenario": tr["meta"]["scenario"], "raised": tr["meta"].get("raised", ""), "options": tr["meta"].get("options")}
     return {"part": tr["meta"]["part"], "scenario": tr["meta"]["scenario"], "raised": tr["meta"].get("raised", "")}
 
 
@@ -222,7 +245,10 @@ def main(tier: str, seed: int) -> int:
             elif a == "MReset":
                 ops.append(["reset", p[0], 2000 + bi])
             elif a == "MStep":
-                ops += [["step", p[0], rng.randrange(len(names))] for _ in range(4)]
+                atk = attack_entries(cfg)
+                # (four steps per model step; where the scenario has an attacker's tool, three of them run it - the whole
+                # kill chain within two model steps - so that malicious traffic flows before and after the other instance's operations)
+                ops += [["step", p[0], rng.choice(atk) if atk and j else rng.randrange(len(names))] for j in range(4)]
             elif a == "MClose":
                 ops.append(["close", p[0]])
         if "A" not in inst or not any(o[0] == "step" and o[1] == "A" for o in ops):
@@ -230,8 +256,28 @@ def main(tier: str, seed: int) -> int:
         spec_i = {"instances": {k: {"cfg": v} for k, v in inst.items()}, "ops": ops}
         spec_s = {"instances": {"A": {"cfg": inst["A"]}}, "ops": [o for o in ops if o[1] == "A"]}
         specs += [spec_i, spec_s]
-        index.append(("instances", label, len(specs) - 2, len(specs) - 1, 0, 0, {"ops": [o[:2] for o in ops], "swapped": swap}))
+        # (whether an instance with OTHER process-relevant options than A's exists in this run: the class-level NMNE settings
+        # - known finding - only show then; instances with equal options must not see each other whatever is shared)
+        same = all(v is inst["A"] for v in inst.values())
+        index.append(("instances", label, len(specs) - 2, len(specs) - 1, 0, 0,
+                      {"ops": [o[:2] for o in ops], "swapped": swap, "options": "same" if same else "different"}))
         chk.add_case({"part": "instances", "s": label, "ops": ops, "swap": swap})
+    # (b') directed: a sibling with EQUAL options is built, used and CLOSED around A's attack steps (every hook of an instance's
+    # life - construction, reset, step, close - is a place where process-wide settings may be touched)
+    label, cfg = det[0]
+    atk = attack_entries(cfg) or [0]
+    A = lambda n: [["step", "A", rng.choice(atk)] for _ in range(n)]  # noqa
+    Bs = lambda n: [["step", "B", rng.choice(atk)] for _ in range(n)]  # noqa
+    for di, ops in enumerate([
+        [["new", "A"], ["reset", "A", 5], ["new", "B"], ["reset", "B", 6]] + Bs(2) + [["close", "B"]] + A(8),
+        [["new", "A"], ["reset", "A", 5]] + A(3) + [["new", "B"], ["reset", "B", 6], ["close", "B"]] + A(6),
+        [["new", "B"], ["reset", "B", 6], ["new", "A"], ["reset", "A", 5]] + A(2) + [["close", "B"]] + A(6) + [["reset", "A", 7]] + A(4),
+    ]):
+        specs += [{"instances": {"A": {"cfg": cfg}, "B": {"cfg": cfg}}, "ops": ops},
+                  {"instances": {"A": {"cfg": cfg}}, "ops": [o for o in ops if o[1] == "A"]}]
+        index.append(("instances", label, len(specs) - 2, len(specs) - 1, 0, 0, {"ops": [o[:2] for o in ops], "swapped": False, "options": "same",
+                                                                                  "directed": di}))
+        chk.add_case({"part": "instances-directed", "s": label, "ops": ops})
     # (d) schedule wrap-around: episode k of a looping schedule against the first use of the same schedule entry
     work = common.tmpdir("verif_c04_")
     folders = scheduled_folders(work, rng)
